@@ -197,6 +197,17 @@ func cmdCheck(args []string) int {
 		}
 		wall = time.Since(start).Seconds()
 	}
+	if *tier == "thorough" && !*noEvidence {
+		files := anchorFiles(*verif, m.ID)
+		eq := sweepForProperty(m.ID, "equiv", *repo, *verif, files, 96, 12)
+		ft := sweepForProperty(m.ID, "fault", *repo, *verif, files, 96, 12)
+		res.Sweeps = []*SweepSummary{eq, ft}
+		if eq.Alarmed > 0 {
+			fmt.Printf("WARNING: %d behaviour-preserving variant(s) raise %s (checker brittleness, not a property violation): %v\n", eq.Alarmed, m.ID, eq.Examples)
+		}
+		fmt.Printf("%s thorough sweeps: equivalence %d/%d silent; fault injection in anchor files: %d/%d type-checking variants raise this property\n", m.ID, eq.Silent, eq.TypeCheck, ft.Alarmed, ft.TypeCheck)
+		wall = time.Since(start).Seconds()
+	}
 	return finish(m, res, *tier, *repo, *verif, wall, !*noEvidence)
 }
 
@@ -207,6 +218,7 @@ type Result struct {
 	Analysed   map[string]int
 	Configs    []string
 	Controls   []ControlResult
+	Sweeps     []*SweepSummary
 }
 
 // runProperty loads the tree and runs the property's rules under one or two configurations.
@@ -356,6 +368,10 @@ func finish(m *PropMeta, res *Result, tier, repo, verif string, wall float64, wr
 		"notes":               res.Notes,
 		"exhaustive":          true,
 	}
+	if res.Sweeps != nil {
+		cov["sweeps"] = res.Sweeps
+		cov["sweeps_note"] = "sampled single-site variants of the property's anchor files applied in memory (overlay), this property's rules only: 'equiv' = behaviour-preserving rewrites, the check must stay silent (alarms are checker brittleness and are printed as warnings); 'fault' = generic injected faults, how many this property's rules notice (survivors include equivalent mutants and faults that belong to other properties). Neither changes the exit code."
+	}
 	if res.Controls != nil {
 		killed := 0
 		for _, c := range res.Controls {
@@ -453,4 +469,27 @@ func cmdExplain(args []string) int {
 		return 1
 	}
 	return 0
+}
+
+// anchorFiles reads the property's anchor files from properties.jsonl.
+func anchorFiles(verif, id string) []string {
+	b, err := os.ReadFile(filepath.Join(verif, "properties.jsonl"))
+	if err != nil {
+		return nil
+	}
+	for _, line := range strings.Split(string(b), "\n") {
+		if strings.TrimSpace(line) == "" {
+			continue
+		}
+		var p struct {
+			ID      string `json:"id"`
+			Anchors struct {
+				Files []string `json:"files"`
+			} `json:"anchors"`
+		}
+		if json.Unmarshal([]byte(line), &p) == nil && p.ID == id {
+			return p.Anchors.Files
+		}
+	}
+	return nil
 }
